@@ -27,6 +27,7 @@ func propC06() *Property {
 			{ID: "C06.K7", Title: "every recursion has a checked measure", Floor: 3, Run: c06K7},
 			{ID: "C06.K9", Title: "elements of a split text are taken only where the split is known to be long enough", Floor: 0, Run: splitIndexing},
 			{ID: "C06.K8", Title: "URLs (identifiers can be absent) are dereferenced only where provably non-nil", Floor: 10, Run: c06K8},
+			{ID: "C06.K11", Title: "interface values are only compared where their dynamic types are comparable", Floor: 0, Run: c06K11},
 			{ID: "C06.K10", Title: "every goroutine of a fan-out fills the slot of its own iteration: no result slot stays nil to be dereferenced later (same instances as C08.R5)", Floor: 40, Run: c08R5},
 		},
 	}
@@ -703,7 +704,18 @@ func c06K5(c *Ctx) {
 			}
 			g := lin(num)
 			hyps := ineqs(factsOf(caller).At(e.Site.Block()))
-			c.check(proveNonNeg(g, hyps, unsignedSymbolsOf(num)), FuncName(caller)+"/superscript-arg", P.InstrPos(e.Site), FuncName(caller),
+			okNum := proveNonNeg(g, hyps, unsignedSymbolsOf(num))
+			if f := loadedField(num); !okNum && f != nil && f.Pkg() != nil && isServitorPath(f.Pkg().Path()) {
+				// a number carried in a field of a record: everything ever stored there is non-negative
+				sts := storesToField(P, f)
+				okNum = len(sts) > 0
+				for _, st := range sts {
+					if !nonNegStored(st.Val, 0) {
+						okNum = false
+					}
+				}
+			}
+			c.check(okNum, FuncName(caller)+"/superscript-arg", P.InstrPos(e.Site), FuncName(caller),
 				"label "+g.String()+" is non-negative (lengths and loop indices only)", "a link label "+g.String()+" that may be negative reaches style.superscript, whose '-' sign hits panic(\"can't superscript non-digit\")")
 		}
 	}
@@ -1479,4 +1491,91 @@ func constStringMapKeys(g *ssa.Global) []string {
 		}
 	}
 	return keys
+}
+
+// c06K11: `a == b` on two interface values panics at run time when both hold
+// the same uncomparable dynamic type ("comparing uncomparable type
+// map[string]interface {}") — and everything decoded from JSON is a
+// map[string]any or a []any somewhere. Reported: `==` / `!=` between two
+// interface-typed operands neither of which is nil, a constant, an error
+// (sentinel comparisons; errors of the module are pointers or strings) or a
+// value of an interface type with methods (the module's Tangible / Container
+// implementations are pointers); and calls of slices.Contains / Index /
+// Compact / Equal instantiated at an interface type, which compare with `==`
+// inside (seed C06-1r8: a "drop repeated actors" step over the []any behind
+// attributedTo).
+func c06K11(c *Ctx) {
+	P := c.P
+	risky := func(t types.Type) bool {
+		it, ok := t.Underlying().(*types.Interface)
+		if !ok {
+			return false
+		}
+		if isErrorType(t) {
+			return false
+		}
+		return it.NumMethods() == 0 // `any`: whatever the JSON decoder produced
+	}
+	n := 0
+	for _, fn := range P.Funcs {
+		if !strings.HasPrefix(P.PkgOf(fn), "servitor") {
+			continue
+		}
+		fname := FuncName(fn)
+		eachInstr(fn, func(_ *ssa.BasicBlock, _ int, in ssa.Instruction) {
+			switch x := in.(type) {
+			case *ssa.BinOp:
+				if x.Op != token.EQL && x.Op != token.NEQ {
+					return
+				}
+				if !risky(x.X.Type()) || !risky(x.Y.Type()) {
+					return
+				}
+				if _, isC := x.X.(*ssa.Const); isC {
+					return
+				}
+				if _, isC := x.Y.(*ssa.Const); isC {
+					return
+				}
+				// one side made from a comparable concrete value: the comparison cannot panic
+				for _, side := range []ssa.Value{x.X, x.Y} {
+					if mi, ok := side.(*ssa.MakeInterface); ok && types.Comparable(mi.X.Type()) {
+						return
+					}
+				}
+				n++
+				c.bad(fname+"/interface-comparison", P.InstrPos(in), fname, "two values of type any are compared: if both hold a JSON object or list (map[string]any, []any) the comparison panics")
+			case *ssa.Call:
+				sc := x.Call.StaticCallee()
+				if sc == nil {
+					return
+				}
+				gen := sc
+				if o := sc.Origin(); o != nil {
+					gen = o // an instantiation: the package is that of the generic function
+				}
+				if gen.Pkg == nil {
+					return
+				}
+				pp := gen.Pkg.Pkg.Path()
+				if pp != "slices" && pp != "golang.org/x/exp/slices" {
+					return
+				}
+				switch gen.Name() {
+				case "Contains", "Index", "Compact", "Equal":
+				default:
+					return
+				}
+				targs := sc.TypeArgs()
+				for _, ta := range targs {
+					if risky(ta) {
+						n++
+						c.bad(fname+"/interface-comparison", P.InstrPos(in), fname, gen.Pkg.Pkg.Name()+"."+gen.Name()+" is used on elements of type any: it compares with ==, which panics when two elements hold a JSON object or list")
+						return
+					}
+				}
+			}
+		})
+	}
+	c.info("interface_comparisons_reported", n)
 }
